@@ -216,6 +216,10 @@ def eq(a, b):
         return r
     if isinstance(a, float) or isinstance(b, float):
         try:
+            if a == b:
+                return True                      # also +-inf
+            if a != a and b != b:
+                return True                      # both NaN: the same (non-)value
             return abs(a - b) <= 1e-9 * max(1.0, abs(a), abs(b))
         except TypeError:
             return False
@@ -1340,6 +1344,8 @@ def obs_equal(a, b):
         return a == b
     if isinstance(a, (int, float, Fraction)) and isinstance(b, (int, float, Fraction)):
         fa, fb = float(a), float(b)
+        if fa == fb or (fa != fa and fb != fb):
+            return True
         return abs(fa - fb) <= 1e-9 * max(1.0, abs(fa), abs(fb))
     return a == b
 
